@@ -39,13 +39,18 @@ def World.begin (w : World) (k : Nat) (iso : Iso) : World × R :=
     let (m', slot) := w.mgr.begin iso
     ({ w with mgr := m', cur := aset w.cur k (some slot) }, .ok)
 
-/-- `Session::commit`: the session forgets its transaction whatever the manager answers. -/
+/-- `Session::commit`: the session forgets its transaction whatever the manager answers; an
+accepted commit publishes the transaction's pending versions at the commit epoch, a refused one
+discards them. -/
 def World.commit (w : World) (k : Nat) : World × R :=
   match w.curOf k with
   | none => (w, .err "invalid")
   | some slot =>
     let (m', r) := w.mgr.commit slot
-    ({ w with mgr := m', cur := aset w.cur k none },
+    let store' := match r with
+      | .ok e => w.store.finalize (txIdOf slot) e
+      | _ => w.store.discard (txIdOf slot)
+    ({ w with store := store', mgr := m', cur := aset w.cur k none },
      match r with
      | .ok _ => .ok
      | .invalid => .err "invalid"
@@ -61,15 +66,41 @@ def World.rollback (w : World) (k : Nat) : World × R :=
     ({ w with store := w.store.discard (txIdOf slot), mgr := m', cur := aset w.cur k none },
      if b then .ok else .err "invalid")
 
+/-- `TransactionManager::advance_epoch` + `LpgStore::sync_epoch`: an auto-commit write takes a
+fresh epoch. -/
+def World.freshEpoch (w : World) : World × Nat :=
+  let e := w.mgr.epoch + 1
+  ({ w with mgr := { w.mgr with epoch := e }, store := w.store.syncEpoch e }, e)
+
+/-- `get_write_context` / `Planner::write_epoch`: the stamp of what a statement creates — pending
+inside a transaction, one fresh epoch per statement outside. -/
+def World.writeCtx (w : World) (k : Nat) : World × Nat × Nat :=
+  match w.curOf k with
+  | some slot => (w, pendingEpoch, txIdOf slot)
+  | none => let (w', e) := w.freshEpoch; (w', e, systemTx)
+
 def World.createNode (w : World) (k : Nat) (labels : List Nat) : World × Nat :=
-  let (ep, tx) := w.ctx k
-  let (s', id) := w.store.createNode labels ep tx
-  ({ w with store := s' }, id)
+  let (w1, ep, tx) := w.writeCtx k
+  let (s', id) := w1.store.createNode labels ep tx
+  ({ w1 with store := s' }, id)
 
 def World.createEdge (w : World) (k src dst ty : Nat) : World × Nat :=
-  let (ep, tx) := w.ctx k
-  let (s', id) := w.store.createEdge src dst ty ep tx
-  ({ w with store := s' }, id)
+  let (w1, ep, tx) := w.writeCtx k
+  let (s', id) := w1.store.createEdge src dst ty ep tx
+  ({ w1 with store := s' }, id)
+
+/-- one statement `MATCH (a) … CREATE (a)-[e:T]->(b:L)`: node and edge share the statement's stamp -/
+def World.createNodeAndEdge (w : World) (k src l ty : Nat) : World × Nat × Nat :=
+  let (w1, ep, tx) := w.writeCtx k
+  let (s1, b) := w1.store.createNode [l] ep tx
+  let (s2, e) := s1.createEdge src b ty ep tx
+  ({ w1 with store := s2 }, b, e)
+
+/-- `GrafeoDB::create_node`: a fresh epoch, then the store's non-transactional entry point -/
+def World.dbCreateNode (w : World) (labels : List Nat) : World × Nat :=
+  let (w1, e) := w.freshEpoch
+  let (s', id) := w1.store.createNode labels e systemTx
+  ({ w1 with store := s' }, id)
 
 def World.getNode (w : World) (k id : Nat) : Option (List Nat × AList String) :=
   let (ep, tx) := w.ctx k
@@ -79,17 +110,59 @@ def World.getEdge (w : World) (k id : Nat) : Option (EdgeRec × AList String) :=
   let (ep, tx) := w.ctx k
   w.store.getEdgeTo id ep tx
 
-/-- `get_neighbors_outgoing`: straight from the adjacency list, no visibility filter. -/
-def World.outgoing (w : World) (_k n : Nat) : List (Nat × Nat) := w.store.outEdges n
+/-- `get_neighbors_outgoing`: adjacency entries whose edge and far endpoint the session can see. -/
+def World.outgoing (w : World) (k n : Nat) : List (Nat × Nat) :=
+  let (ep, tx) := w.ctx k
+  (w.store.outEdges n).filter (fun p => (w.store.getEdgeTo p.2 ep tx).isSome && (w.store.getNodeTo p.1 ep tx).isSome)
 
 /-- `MATCH (n:L)`: label index, filtered by `get_node_versioned` at the session's context. -/
 def World.scanLabel (w : World) (k l : Nat) : List Nat :=
   let (ep, tx) := w.ctx k
   (w.store.nodesByLabel l).filter (fun id => (w.store.getNodeTo id ep tx).isSome)
 
-/-- `MATCH (n)`: `node_ids()` (enumerated at the **store** epoch), same filter. -/
+/-- `MATCH (n)`: `all_node_ids()`, same filter. -/
 def World.scanAll (w : World) (k : Nat) : List Nat :=
   let (ep, tx) := w.ctx k
-  w.store.nodeIds.filter (fun id => (w.store.getNodeTo id ep tx).isSome)
+  w.store.allNodeIds.filter (fun id => (w.store.getNodeTo id ep tx).isSome)
+
+/-! ### mutations issued as query text inside a session
+
+`MATCH (n) WHERE id(n) = x <clause>`: the scan enumerates and filters as `scanAll`; the mutation
+operators (`operators/mutation.rs`) then write **in place**: `set_node_property`, `add_label`,
+`remove_label` carry no epoch or transaction, `delete_node_at_epoch` / `delete_edge_at_epoch` stamp
+the chain with the viewing epoch and no owner. `Session::rollback` undoes none of them. -/
+
+def World.matches (w : World) (k id : Nat) : Bool := (w.scanAll k).contains id
+
+def World.qSetProp (w : World) (k id key : Nat) (v : String) : World × Bool :=
+  if w.matches k id then ({ w with store := w.store.setNodeProp id key v }, true) else (w, false)
+
+def World.qAddLabel (w : World) (k id l : Nat) : World × Bool :=
+  if w.matches k id then ({ w with store := (w.store.addLabel id l).1 }, true) else (w, false)
+
+def World.qRemoveLabel (w : World) (k id l : Nat) : World × Bool :=
+  if w.matches k id then ({ w with store := (w.store.removeLabel id l).1 }, true) else (w, false)
+
+/-- `DETACH DELETE n`: `delete_node_edges` (store epoch), then `delete_node_at_epoch(viewing epoch)` -/
+def World.qDetachDelete (w : World) (k id : Nat) : World × Bool :=
+  if w.matches k id then
+    let (ep, _) := w.ctx k
+    let s1 := w.store.deleteNodeEdges id
+    ({ w with store := (s1.deleteNodeAt id ep).1 }, true)
+  else (w, false)
+
+/-- `MATCH (a)-[e]->(b) WHERE id(e) = x`: `a` from the scan, `e` from the forward adjacency of `a`,
+edge and target checked with `get_edge_versioned` / `get_node_versioned` (operators/expand.rs). -/
+def World.edgeMatches (w : World) (k e : Nat) : Bool :=
+  let (ep, tx) := w.ctx k
+  (w.scanAll k).any (fun a => (w.store.outEdges a).any (fun p =>
+    p.2 == e && (w.store.getEdgeTo e ep tx).isSome && (w.store.getNodeTo p.1 ep tx).isSome))
+
+/-- `… DELETE e`: `delete_edge_at_epoch(viewing epoch)` -/
+def World.qDeleteEdge (w : World) (k e : Nat) : World × Bool :=
+  if w.edgeMatches k e then
+    let (ep, _) := w.ctx k
+    ({ w with store := (w.store.deleteEdgeAt e ep).1 }, true)
+  else (w, false)
 
 end Grafeo.Sess
